@@ -24,12 +24,9 @@ Definition proj (x o : sx) : sx :=
   else o.
 
 Definition spec (prop : str) (x o : sx) : sx :=
-  if str_eqb prop (bytes "C01") then mon_C01 x o
-  else if str_eqb prop (bytes "C02") then mon_C02 x o
-  else if str_eqb prop (bytes "C03") then mon_C03 x o
-  else if str_eqb prop (bytes "C04") then mon_C04 x o
-  else if str_eqb prop (bytes "C20") then mon_C20 x o
-  else if str_eqb (sx_str (sx_nth 0 x)) (bytes "unit") then
+  let fam := sx_str (sx_nth 0 x) in
+  if str_eqb fam (bytes "cache") then mon_hist prop x o
+  else if str_eqb fam (bytes "unit") then
     (if str_eqb prop (bytes "C15") then mon_C15_unit x o
      else if str_eqb prop (bytes "C06") then mon_C06_unit x o
      else if str_eqb prop (bytes "C07") then mon_C07_unit x o
@@ -37,5 +34,12 @@ Definition spec (prop : str) (x o : sx) : sx :=
      else if str_eqb prop (bytes "C09") then mon_C09_unit x o
      else if str_eqb prop (bytes "C11") then mon_C11_unit x o
      else v_ok)
-  else if str_eqb (sx_str (sx_nth 0 x)) (bytes "cache") then mon_hist prop x o
-  else verdict false "unknown property".
+  else if str_eqb fam (bytes "copy") then
+    (if str_eqb prop (bytes "C20") then mon_C20 x o else v_ok)
+  else if str_eqb fam (bytes "route") then
+    (if str_eqb prop (bytes "C01") then mon_C01 x o
+     else if str_eqb prop (bytes "C02") then mon_C02 x o
+     else if str_eqb prop (bytes "C03") then mon_C03 x o
+     else if str_eqb prop (bytes "C04") then mon_C04 x o
+     else v_ok)
+  else verdict false "unknown case family".
